@@ -19,7 +19,7 @@ SPEC = dict(
                 "order is a topological order of the node graph (hence of the quotient graph), subgraph_preds/enemies describe the "
                 "quotient edges / enemy classes, no enemy pair in one group. Proved: new_establishes_Inv, tryMerge_preserves_Inv "
                 "(never panics/bug, a refused call changes nothing, a successful call joins exactly the two classes), all merge "
-                "sequences by induction, tryMerge_refuses_iff (false <-> enemy pair between the groups or a third group on a "
+                "sequences by induction, subgraphs() yields exactly the groups, tryMerge_refuses_iff (false <-> enemy pair between the groups or a third group on a "
                 "quotient path between them), cycle-check loop termination. Tie: bounded-exhaustive digraphs (all <=3-node digraphs "
                 "with loops, all loop-free 4-node digraphs; thorough: all 4-node digraphs with loops, all loop-free 5-node digraphs), "
                 "exhaustive small union histories, every loop-free digraph on <=3 (thorough <=4) nodes x several all-pairs merge "
@@ -30,8 +30,8 @@ SPEC = dict(
                 "absent-key panics modelled as defaults (a real panic is a `panic` answer and shows up as a difference); HashSet "
                 "iteration order in the enemy remap is unobservable; sort_unstable+dedup / BTreeSet modelled as sorted-set insertion; "
                 "debug_assert!s are exercised (harness builds with debug-assertions) but not modelled except the one in subgraphs(); "
-                "validate_topo_sort is modelled and diffed, no theorem; the link between the invariant's ghost group list and the "
-                "printed subgraphs() listing is by correspondence + oracle, not a theorem."),
+                "validate_topo_sort: theorem for duplicate-free orders only (duplicates are diffed, not proved). The invariant's "
+                "ghost group list is proved equal to the subgraphs() listing (subgraphs_yields_groups)."),
     trusted_base=["slotmap SecondaryMap/SparseSecondaryMap modelled as partial functions; slotmap key Ord = insertion order of a fresh SlotMap",
                   "std HashMap/HashSet/BTreeSet/Vec modelled by abstract behaviour (HashSet iteration order is unobservable in try_merge)"],
     assumptions=["node ids are slotmap keys of one SlotMap without removals (stale-version keys not modelled)",
